@@ -239,13 +239,33 @@ Proof.
   rewrite forallb_app, N1. cbn [andb]. eapply IH; exact H2.
 Qed.
 
+Lemma ends_nofwd (l : list dev) : forallb (fun ev : dev => is_end (snd ev)) l = true -> forallb (fun e => negb (is_fwd e)) l = true.
+Proof.
+  intros H. rewrite forallb_forall in *. intros x Hx. specialize (H x Hx). unfold is_fwd. destruct (snd x); try discriminate. reflexivity.
+Qed.
+
+Lemma disc_ghost_nofwd st id st' : forallb (fun e => negb (is_fwd e)) (disc_ghost st id st') = true.
+Proof.
+  apply ends_nofwd. unfold disc_ghost. destruct (slab_get (r_obufs st) id); [|reflexivity]. destruct (slab_get (r_trackers st) id); [|reflexivity].
+  destruct (slab_get (r_conns st) id) as [c|]; [|reflexivity]. destruct (c_clean c); [reflexivity|].
+  destruct (al_get str_eqb (tr_id t) (r_graveyard st')) as [[ss|]|]; try reflexivity.
+  apply forallb_forall. intros x Hx. apply in_map_iff in Hx as (rq & <- & _). reflexivity.
+Qed.
+
+Lemma take_ghost_nofwd st client : forallb (fun e => negb (is_fwd e)) (take_ghost st client) = true.
+Proof.
+  unfold take_ghost. destruct (validate_clientid client); [|reflexivity]. destruct (al_get str_eqb client (r_cmap st)); [|reflexivity].
+  destruct (handle_disconnection st n None); try reflexivity. apply disc_ghost_nofwd.
+Qed.
+
 Lemma handle_device_payload_nofwd st id st' evs :
   handle_device_payload_d st id = Ok (st', evs) -> forallb (fun e => negb (is_fwd e)) evs = true.
 Proof.
   unfold handle_device_payload_d. intros H. destruct (slab_get (r_ibufs st) id) as [inc|]; [|now inv_ok].
   apply bind_ok in H as (b & _ & H). apply bind_ok in H as ([[st1 fl] evs1] & H1 & H).
   apply bind_ok in H as (st2 & _ & H). apply bind_ok in H as (st3 & _ & H). apply bind_ok in H as (st4 & _ & H). inv_ok.
-  eapply handle_packets_nofwd; exact H1.
+  rewrite forallb_app, (handle_packets_nofwd _ _ _ _ _ _ _ _ H1). cbn [andb].
+  destruct (f_disconnect fl); [apply disc_ghost_nofwd|reflexivity].
 Qed.
 
 Lemma conn_ghost_nofwd st client link : forallb (fun e => negb (is_fwd e)) (conn_ghost st client link) = true.
@@ -268,13 +288,14 @@ Proof.
   { intros Hn. apply dcd_nofwd; [exact Hn|]. eapply dcd_frame; [exact (proj1 HI)|exact (proj1 HI')|exact L|exact HD]. }
   destruct o; unfold step_d in H1;
     try (apply bind_ok in H1 as ([s2 o2] & _ & H1); inv_ok; now apply Hgen).
-  - apply bind_ok in H1 as ([s2 o2] & _ & H1). inv_ok. apply Hgen. apply conn_ghost_nofwd.
+  - apply bind_ok in H1 as ([s2 o2] & _ & H1). inv_ok. apply Hgen. rewrite forallb_app, take_ghost_nofwd. apply conn_ghost_nofwd.
   - apply bind_ok in H1 as ([s1 e1] & H2 & H1). inv_ok. apply Hgen. eapply handle_device_payload_nofwd; exact H2.
   - apply bind_ok in H1 as ([[s1 b1] e1] & H2 & H1). inv_ok.
     eapply (consume_dcd (set_r_oracle st orc)); [| | |exact H2].
     + eapply cinv_view; [|exact HI]. reflexivity.
     + exact HB.
     + exact HD.
+  - apply bind_ok in H1 as ([s2 o2] & _ & H1). inv_ok. apply Hgen. apply disc_ghost_nofwd.
 Qed.
 
 Lemma run_bounded_head' st orc o ops st' tr :
